@@ -141,13 +141,19 @@ def r171_172(ctx):
         oks = bool(flag) or contains(lit, lambda s: s is cbs[0].data["result"])
         fname = flag[0].args[0] if flag else None
         acc = [e for e in ev_in if e.kind == "store" and e.data.get("tkind") == "name" and e.data["name"] == fname and len(e.loops) == 3]
-        oks = oks and len(acc) == 1 and A.C.canon(acc[0].data["value"]).op == "or" and contains(
-            acc[0].data["value"], lambda s: s is cbs[0].data["result"])
+        res_ = cbs[0].data["result"]
+        # `stop = stop or result`, or `if result: stop = True` (the flag is raised exactly under the callback's own result)
+        oks = oks and len(acc) == 1 and (
+            (A.C.canon(acc[0].data["value"]).op == "or" and contains(acc[0].data["value"], lambda s: s is res_))
+            or (acc[0].data["value"] is TRUE and any(l is res_ for l in pc_literals(acc[0].pc))))
         # the flag starts False in every step and the exit is taken on the flag itself (not its negation)
         if oks:
             inits = [e for e in ev_in if e.kind == "store" and e.data.get("tkind") == "name" and e.data["name"] == fname and len(e.loops) == 2
                      and e.seq < cbs[0].seq]
-            oks = len(inits) == 1 and inits[0].data["value"] is FALSE and A.C.canon(lit) is A.C.canon(flag[0])
+            cl, cf_ = A.C.canon(lit), A.C.canon(flag[0])
+            # `if stop:` or `if self.callbacks_ and <stop>:` (the presence test merged into the exit condition)
+            exit_on_flag = cl is cf_ or (cl.op == "and" and cf_ in cl.args[0] and all(x is cf_ or x in present for x in cl.args[0]))
+            oks = len(inits) == 1 and inits[0].data["value"] is FALSE and exit_on_flag
     ctx.ob("R17.2", fq, stopret[0].node if stopret else None, oks, "fit returns self as soon as a callback of the current step "
            "returned a true value", construct="callback stop")
     # callbacks_ is a list of callables (from __setup)
